@@ -169,6 +169,17 @@ def clear_rules(idx: Index, res: Result) -> None:
                      if not (isinstance(a_, ast.Compare) and isinstance(a_.ops[0], (ast.Is, ast.IsNot)) and "model" in src(a_.left))
                      and not (isinstance(a_, ast.Name) and a_.id == "model") and not (isinstance(a_, ast.Attribute) and a_.attr == "model")]
             early = [r for r in walk_no_nested(fi.node) if isinstance(r, ast.Return) and seq(r) < seq(cst)]
+            # a "nothing was memoised since the last reset" shortcut is sound when the flag it reads is raised by memoize() itself - the one
+            # place every memoised value passes through
+            gtests = [a_ for a_, _t in conds] + [g.test for g in walk_no_nested(fi.node) if isinstance(g, ast.If) and any(r is x for r in early for b in g.body for x in ast.walk(b))]
+            gattrs = {x.attr for t_ in gtests for x in ast.walk(t_) if isinstance(x, ast.Attribute) and isinstance(x.value, ast.Name) and x.value.id == "self" and x.attr != "memo" and not x.attr.startswith("__")}
+            gattrs |= {c_.value for t_ in gtests for c_ in ast.walk(t_) if isinstance(c_, ast.Constant) and isinstance(c_.value, str) and c_.value.startswith("_")}
+            if (conds or early) and gattrs and qual == "Model.reset_cache":
+                mz = idx.func(MODEL, "Model.memoize")
+                raised = {dotted(t_).split(".", 1)[1] for n_ in walk_no_nested(mz.node) if isinstance(n_, ast.Assign) for t_ in n_.targets if (dotted(t_) or "").startswith("self.")}
+                if gattrs <= raised:
+                    conds, early = [], []
+                    res.ob("CLEAR", "reset shortcut over %s is raised by memoize() itself" % sorted(gattrs), True)
             res.check("CLEAR", "%s empties the memo unconditionally" % qual, not conds and not early, fi.loc(early[0] if early else cst), fi.qual,
                       norm_stmt(early[0])[:60] if early else "; ".join(src(a_)[:40] for a_, _t in conds),
                       "%s empties the memo only when %s: values memoised on a path that does not set that condition survive the reset"
